@@ -39,6 +39,51 @@ pub open spec fn mode_of(o: Offset) -> OffsetMode {
 pub open spec fn wf_sel(t: TextSelection) -> bool { t.begin <= t.end }
 '''
 
+STORE_STUBS = r'''
+/// R-opaque: the store is only used for handle lookups
+#[verifier::external_body]
+pub struct AnnotationStore { _opaque: usize }
+
+impl AnnotationStore {
+    /// ghost: the live resource / annotation under a handle
+    pub uninterp spec fn res(&self, h: TextResourceHandle) -> Option<TextResource>;
+    pub uninterp spec fn ann(&self, h: AnnotationHandle) -> Option<Annotation>;
+}
+impl TextResource {
+    /// ghost: the live text selection under a handle
+    pub uninterp spec fn sel(&self, h: TextSelectionHandle) -> Option<TextSelection>;
+}
+
+/// stands for StoreFor<T>::get(handle): Ok(&item) iff the handle refers to a live item
+pub trait VxGet<H, T> {
+    spec fn lookup(&self, h: H) -> Option<T>;
+    fn get(&self, h: H) -> (r: Result<&T, StamError>)
+        ensures r is Ok <==> self.lookup(h) is Some, r is Ok ==> *r->Ok_0 == self.lookup(h).unwrap();
+}
+impl VxGet<TextResourceHandle, TextResource> for AnnotationStore {
+    open spec fn lookup(&self, h: TextResourceHandle) -> Option<TextResource> { self.res(h) }
+    #[verifier::external_body]
+    fn get(&self, h: TextResourceHandle) -> (r: Result<&TextResource, StamError>) { unimplemented!() }
+}
+impl VxGet<AnnotationHandle, Annotation> for AnnotationStore {
+    open spec fn lookup(&self, h: AnnotationHandle) -> Option<Annotation> { self.ann(h) }
+    #[verifier::external_body]
+    fn get(&self, h: AnnotationHandle) -> (r: Result<&Annotation, StamError>) { unimplemented!() }
+}
+impl VxGet<TextSelectionHandle, TextSelection> for TextResource {
+    open spec fn lookup(&self, h: TextSelectionHandle) -> Option<TextSelection> { self.sel(h) }
+    #[verifier::external_body]
+    fn get(&self, h: TextSelectionHandle) -> (r: Result<&TextSelection, StamError>) { unimplemented!() }
+}
+
+/// `.expect(msg)` on a lookup result: panics unless Ok - so Ok is an obligation
+#[verifier::external_body]
+pub fn vx_expect<T>(r: Result<T, StamError>, msg: &str) -> (v: T)
+    requires r is Ok,
+    ensures v == r->Ok_0,
+{ match r { Ok(v) => v, Err(_) => panic!() } }
+'''
+
 VX_MSG = r'''
 /// R-err: stands for a `format!(..)` error-message argument; the text is never inspected by a contract
 #[verifier::external_body]
@@ -51,10 +96,10 @@ def build():
     common.target64(u)
     common.int_specs(u)
     u.trusted_text(VX_MSG, 'external_body vx_msg(): error message text (R-err)')
-    u.item('src/types.rs', 'enum', 'Cursor', keep_derives=['Clone', 'Copy', 'PartialEq'])
+    u.item('src/types.rs', 'enum', 'Cursor', keep_derives=['Debug', 'Clone', 'Copy', 'PartialEq'])
     u.item('src/selector.rs', 'struct', 'Offset', keep_derives=['Clone', 'Copy', 'PartialEq'])
     u.item('src/selector.rs', 'enum', 'OffsetMode', keep_derives=['Clone', 'Copy', 'PartialEq'])
-    u.item('src/error.rs', 'enum', 'StamError', keep_variants=['CursorOutOfBounds', 'InvalidOffset', 'InvalidCursor'], keep_derives=[])
+    u.item('src/error.rs', 'enum', 'StamError', keep_variants=['CursorOutOfBounds', 'InvalidOffset', 'InvalidCursor'], keep_derives=['Debug'])
     u.item('src/textselection.rs', 'struct', 'TextSelectionHandle', keep_derives=['PartialEq', 'Eq', 'Clone', 'Copy', 'PartialOrd', 'Ord'])
     u.item('src/textselection.rs', 'struct', 'TextSelection', keep_derives=['Clone', 'Copy'])
     u.spec(SPEC, 'contracts/u_off.py:SPEC')
@@ -106,6 +151,7 @@ def build():
     BAC_ENS = [('ok_iff', 'r is Ok <==> abs_pos(*cursor, LEN as int) is Some'),
                ('value', 'r is Ok ==> r->Ok_0 as int == abs_pos(*cursor, LEN as int).unwrap()')]
     u.impl('src/text.rs', "pub trait Text<'store, 'slf>", [
+        Fn('text', props=P4, ret='r'),
         Fn('textlen', props=P, ret='r', ensures=[('len', 'r == self.tlen()')]),
         Fn('absolute_cursor', props=P, ret='r', requires=[('no_overflow', 'self.base() + cursor <= usize::MAX')],
            ensures=[('value', 'r == self.base() + cursor')]),
@@ -164,9 +210,15 @@ pub open spec fn embeds_sel(c: TextSelection, t: TextSelection) -> bool { c.begi
                     ('inside', 'r is Ok ==> wf_sel(r->Ok_0) && embeds_sel(*self, r->Ok_0)'),
                     ('unbound', 'r is Ok ==> r->Ok_0.intid is None')]),
     ])
+    u.spec('''
+impl vstd::std_specs::convert::FromSpecImpl<&TextSelection> for Offset {
+    open spec fn obeys_from_spec() -> bool { true }
+    open spec fn from_spec(t: &TextSelection) -> Offset { Offset { begin: Cursor::BeginAligned(t.begin), end: Cursor::BeginAligned(t.end) } }
+}
+''', 'contracts/u_off.py:from_spec')
     u.impl(F, 'impl From<&TextSelection> for Offset', [
         Fn('from', props=P4, ret='r', ensures=[('simple', 'r.begin == Cursor::BeginAligned(textselection.begin) && r.end == Cursor::BeginAligned(textselection.end)')]),
-    ], verus_header='impl Offset', )
+    ])
 
     # ------------------------------------------------------------------ TextResource
     R = 'src/resources.rs'
@@ -174,8 +226,8 @@ pub open spec fn embeds_sel(c: TextSelection, t: TextSelection) -> bool { c.begi
     u.item(F, 'struct', 'PositionIndexItem', keep_derives=[],
            rewrites=[('R-smallvec', r'SmallVec<\[\(usize, TextSelectionHandle\); 1\]>', 'Vec<(usize, TextSelectionHandle)>')])
     u.item(F, 'struct', 'PositionIndex', keep_derives=[])
-    u.item(R, 'struct', 'TextResource', keep_fields=['textlen', 'positionindex'], keep_derives=[],
-           rewrites=[('R-vis', r'\btextlen:', 'pub textlen:'), ('R-vis', r'\bpositionindex:', 'pub positionindex:')])
+    u.item(R, 'struct', 'TextResource', keep_fields=['text', 'textlen', 'positionindex'], keep_derives=[],
+           rewrites=[('R-vis', r'\btext:', 'pub text:'), ('R-vis', r'\btextlen:', 'pub textlen:'), ('R-vis', r'\bpositionindex:', 'pub positionindex:')])
     u.spec("""
 impl TextResource {
     /// ghost: the handle under which the range (b, e) is known in the position index, if any
@@ -185,6 +237,7 @@ impl TextResource {
 }
 """, 'contracts/u_off.py:known')
     u.impl(R, "impl<'store> Text<'store, 'store> for TextResource", [
+        Fn('text', props=P4, ret='r'),
         Fn('textlen', props=P, ret='r'),
         Fn('absolute_cursor', props=P, ret='r'),
     ], extra="""
@@ -201,5 +254,69 @@ impl TextResource {
            rewrites=[('R-forname', r'for \(end2, gothandle\) in beginitem\.begin2end\.iter\(\)', 'for (end2, gothandle) in vx_it: beginitem.begin2end.iter()')]),
         Fn('textselection_by_offset_unchecked', props=P + ['C14'], ret='r',
            ensures=RES_ENS + [('unbound', 'r is Ok ==> r->Ok_0.intid is None')]),
+    ])
+
+    # ------------------------------------------------------------------ Selector::offset_with_mode (reporting)
+    S = 'src/selector.rs'
+    u.item(R, 'struct', 'TextResourceHandle', keep_derives=['PartialEq', 'Eq', 'Clone', 'Copy', 'PartialOrd', 'Ord'])
+    u.item('src/annotation.rs', 'struct', 'AnnotationHandle', keep_derives=['PartialEq', 'Eq', 'Clone', 'Copy', 'PartialOrd', 'Ord'])
+    u.item(S, 'enum', 'Selector', keep_variants=['TextSelector', 'AnnotationSelector', 'ResourceSelector'], keep_derives=[])
+    u.item('src/annotation.rs', 'struct', 'Annotation', keep_fields=['target'], keep_derives=[], rewrites=[('R-vis', r'\btarget:', 'pub target:')])
+    u.trusted_text(STORE_STUBS, 'external_body AnnotationStore (opaque) with VxGet::get stubs: StoreFor::get(handle) returns the live item under that handle (contract assumed; proved for the generic StoreFor::get in unit u_store); Result::expect; str::len is an uninterpreted byte length')
+    u.impl('src/annotation.rs', 'impl Annotation', [
+        Fn('target', props=P4, ret='r', ensures=[('target', '*r == self.target')]),
+    ])
+    u.spec('''
+/// every handle stored in a selector refers to a live item, and stored text selections are well formed and inside their resource
+pub open spec fn selector_valid(sel: Selector, store: &AnnotationStore) -> bool {
+    match sel {
+        Selector::TextSelector(res, tsel, _) => store.res(res) is Some && store.res(res).unwrap().sel(tsel) is Some
+            && wf_sel(store.res(res).unwrap().sel(tsel).unwrap()) && store.res(res).unwrap().sel(tsel).unwrap().end <= store.res(res).unwrap().textlen
+            && store.res(res).unwrap().textlen <= isize::MAX as usize,
+        Selector::AnnotationSelector(a, Some((res, tsel, _))) => store.ann(a) is Some && store.res(res) is Some && store.res(res).unwrap().sel(tsel) is Some
+            && wf_sel(store.res(res).unwrap().sel(tsel).unwrap()) && store.res(res).unwrap().sel(tsel).unwrap().end <= isize::MAX as usize,
+        _ => true,
+    }
+}
+''', 'contracts/u_off.py:selector_valid')
+    u.impl(S, 'impl Selector', [
+        Fn('textselection', props=P4, ret='r',
+           requires=[('valid', 'selector_valid(*self, store)')],
+           ensures=[('value', '''match *self {
+                Selector::TextSelector(res, tsel, _) => r is Some && *r.unwrap() == store.res(res).unwrap().sel(tsel).unwrap(),
+                Selector::AnnotationSelector(_, Some((res, tsel, _))) => r is Some && *r.unwrap() == store.res(res).unwrap().sel(tsel).unwrap(),
+                _ => r is None }''')]),
+        Fn('offset_with_mode', props=P4, ret='r',
+           requires=[('valid', 'selector_valid(*self, store)'),
+                     ('parent_valid', '''match *self { Selector::AnnotationSelector(a, Some(_)) => selector_valid(store.ann(a).unwrap().target, store)
+                          && (match store.ann(a).unwrap().target { Selector::TextSelector(pres, ptsel, _) => store.res(pres).unwrap().sel(ptsel).unwrap().end <= isize::MAX as usize, _ => true }), _ => true }''')],
+           ensures=[('text_selector', '''match *self {
+                Selector::TextSelector(res, tsel, stored_mode) => {
+                    let t = store.res(res).unwrap().sel(tsel).unwrap();
+                    let len = store.res(res).unwrap().textlen as int;
+                    r is Some
+                    && mode_of(r.unwrap()) == (match override_mode { Some(m) => m, None => stored_mode })
+                    && wf_offset(r.unwrap())
+                    && accept(r.unwrap(), len)
+                    && abs_pos(r.unwrap().begin, len) == Some(t.begin as int)
+                    && abs_pos(r.unwrap().end, len) == Some(t.end as int)
+                },
+                _ => true }'''),
+                    ('annotation_selector', '''match *self {
+                Selector::AnnotationSelector(a, Some((res, tsel, stored_mode))) => {
+                    let t = store.res(res).unwrap().sel(tsel).unwrap();
+                    match store.ann(a).unwrap().target {
+                        Selector::TextSelector(pres, ptsel, _) => {
+                            let parent = store.res(pres).unwrap().sel(ptsel).unwrap();
+                            (r is Some <==> embeds_sel(parent, t))
+                            && (r is Some ==> mode_of(r.unwrap()) == (match override_mode { Some(m) => m, None => stored_mode })
+                                && wf_offset(r.unwrap()) && accept(r.unwrap(), parent.end - parent.begin)
+                                && resolve_in(r.unwrap(), parent) == (t.begin as int, t.end as int))
+                        },
+                        _ => true,
+                    }
+                },
+                _ => true }'''),
+                    ('others', '''match *self { Selector::TextSelector(..) => true, Selector::AnnotationSelector(_, Some(_)) => true, _ => r is None }''')]),
     ])
     return u
